@@ -3,7 +3,7 @@
 # Mutant matrix WITHOUT touching /repo or /verif/harness: every mutants/*.diff is applied to its own scratch worktree of /repo HEAD
 # (under /tmp/mw, removed afterwards), a private copy of the harness is built against that worktree, and all 20 quick tiers are run
 # with the vcheck binary directly (same engine, budgets and seed as `./check <id> quick`; no fuzzing in the quick tier anyway).
-# Result lines go to mutants/RESULTS.txt.  `slots` mutants are processed in parallel (default 3).
+# Result lines go to mutants/RESULTS.txt.  CHECKS="C03 C09" restricts the checks run; OWN_ONLY=1 runs only the check named by the first three letters of the patch name.  `slots` mutants are processed in parallel (default 3).
 SLOTS=${1:-3}
 OUT=${OUT:-/verif/mutants/RESULTS.txt}
 # PATCHES: space-separated list of name=path pairs (default: every mutants/*.diff under its file name)
@@ -23,7 +23,8 @@ one() {
   (cd $H/src_copy && CARGO_NET_OFFLINE=true CARGO_TARGET_DIR=$H/target cargo build --release >$MW/build_$slot.log 2>&1) || { echo "$name BUILD-FAILED" >> $OUT; git -C /repo worktree remove --force $WT; return; }
   mkdir -p $O/replays; cp /verif/known_findings.json $O/; cp -r /verif/replays/known /verif/replays/fixed $O/replays/
   caught=""; infra=""
-  for id in C01 C02 C03 C04 C05 C06 C07 C08 C09 C10 C11 C12 C13 C14 C15 C16 C17 C18 C19 C20; do
+  for id in ${CHECKS:-C01 C02 C03 C04 C05 C06 C07 C08 C09 C10 C11 C12 C13 C14 C15 C16 C17 C18 C19 C20}; do
+    [ -n "${OWN_ONLY:-}" ] && [ "$id" != "${name:0:3}" ] && continue
     timeout --signal=KILL 900 $H/target/release/vcheck $id --tier quick --seed ${VERIF_SEED:-0} --verif $O >$MW/run_$slot.txt 2>&1; rc=$?
     if [ $rc -eq 1 ]; then caught="$caught $id"; elif [ $rc -ne 0 ]; then infra="$infra $id"; fi
   done
